@@ -426,7 +426,7 @@ theorem dispatch1_eq_routeMatch {chk : Constraint → Bytes → Bool} {cfg : Con
             · rfl
             · exfalso
               obtain ⟨_, pp, hpp, hpe⟩ := register_use hr
-              have := parseRoute_param_const hpp s0 (by rw [← hpe, hsegs]; exact List.mem_cons_self ..) hp
+              have := parseRouteW_param_const hpp s0 (by rw [← hpe, hsegs]; exact List.mem_cons_self ..) hp
               rw [this] at h3; simp at h3
           exact match_same_bucket hr hsegs hc h3 hno hm
         · left
@@ -587,8 +587,8 @@ theorem fill_served_partial {chk : Constraint → Bytes → Bool} (cfg : Config)
         parser := { segs := sp, params := paramNames sp }, use := false,
         star := patText (prettyPat cfg p) == [SLASH, STAR], root := patText (prettyPat cfg p) == [SLASH] } := by
     unfold register
-    simp only [hraw, hpretty, hclean, parseRoute_patText hwf, parseRoute_patText' hokq hshq, hsr, hsp,
-      Option.map_some]
+    simp only [hraw, hpretty, hclean, parseRouteW_noLT _ (patText_noLT _ hokq), parseRoute_patText hwf,
+      parseRoute_patText' hokq hshq, hsr, hsp, Option.map_some]
   have hdet := det_of_fill htr horig
   have hlenr : (paramNames sr).length = (p.filter (·.isParam)).length := segsOf_params_len hsr
   have hlenp : (paramNames sp).length = (p.filter (·.isParam)).length := by
@@ -812,8 +812,8 @@ theorem rpm_eq_dispatch_documented {chk : Constraint → Bytes → Bool} (cfg : 
         parser := { segs := sp, params := paramNames sp }, use := false,
         star := patText q' == [SLASH, STAR], root := patText q' == [SLASH] } := by
     unfold register
-    simp only [hraw, ← htext, hclean, parseRoute_patText hwf, parseRoute_patText' hokq' hshq', hsr, hsp,
-      Option.map_some]
+    simp only [hraw, ← htext, hclean, parseRouteW_noLT _ (patText_noLT _ hokq'), parseRoute_patText hwf,
+      parseRoute_patText' hokq' hshq', hsr, hsp, Option.map_some]
   have hlenr : (paramNames sr).length = (p.filter (·.isParam)).length := segsOf_params_len hsr
   have hlenp : (paramNames sp).length = (p.filter (·.isParam)).length := by
     rw [segsOf_params_len hsp, hcount]
